@@ -115,12 +115,12 @@ impl<R: Read + Send> Iterator for ChunkIter<R> {
         let mut min_size = self.min_size;
         let mut vec = Vec::with_capacity(self.size_hint.min(min_size));
 
-        // check if some bytes exist in the buffer and if yes, use them
-        let open_buf_len = self.buf.len() - self.pos;
+        // check if some bytes exist in the buffer and if yes, use them (but not more than min_size)
+        let open_buf_len = (self.buf.len() - self.pos).min(min_size);
         if open_buf_len > 0 {
             vec.resize(open_buf_len, 0);
-            vec.copy_from_slice(&self.buf[self.pos..]);
-            self.pos = self.buf.len();
+            vec.copy_from_slice(&self.buf[self.pos..self.pos + open_buf_len]);
+            self.pos += open_buf_len;
             min_size -= open_buf_len;
         }
 
@@ -146,9 +146,11 @@ impl<R: Read + Send> Iterator for ChunkIter<R> {
             return if vec.is_empty() { None } else { Some(Ok(vec)) };
         }
 
+        // prefill the window with (up to) the last 64 bytes read; there are fewer if min_size < 64
+        let window_start = vec.len().saturating_sub(64);
         _ = self
             .rabin
-            .reset_and_prefill_window(&mut vec[vec.len() - 64..vec.len()].iter().copied());
+            .reset_and_prefill_window(&mut vec[window_start..].iter().copied());
 
         loop {
             if vec.len() >= self.max_size {
